@@ -3160,6 +3160,39 @@ def are_co_aligned(*exprs):
     return len(unique_ancestors) <= 1
 
 
+def same_rows_source(expr, _cache=None):
+    """Deepest expression below ``expr`` that provably has the rows of ``expr``
+
+    The dependencies of a length preserving operation are co-aligned, which only
+    says that they are partitioned alike: a filtered operand misses rows and pandas
+    aligns on the union of the indexes. Such an operation is only passed if all of
+    its row-wise dependencies lead to the same source.
+    """
+    cache = {} if _cache is None else _cache
+    if expr._name not in cache:
+        result = expr
+        if expr._is_length_preserving:
+            sources = {}
+            for dep in expr.dependencies():
+                if dep.ndim == 0 or (
+                    isinstance(expr, Blockwise) and expr._broadcast_dep(dep)
+                ):
+                    continue
+                source = same_rows_source(dep, cache)
+                if isinstance(source, IO):
+                    # Account for column projection within IO expressions
+                    key = _tokenize_partial(
+                        source, ["columns", "_series", "_dataset_info_cache"]
+                    )
+                else:
+                    key = source._name
+                sources[key] = source
+            if len(sources) == 1:
+                (result,) = sources.values()
+        cache[expr._name] = result
+    return cache[expr._name]
+
+
 ## Utilites for Expr fusion
 
 
